@@ -81,12 +81,65 @@ pub const BINARY: [(&str, u8); 17] = [
 pub const UNARY: [(&str, u8); 4] = [("ObjectType", 0x8e), ("SizeOf", 0x87), ("Return", 0xa4), ("DerefOf", 0x83)];
 pub const CONVERT: [(&str, u8); 2] = [("ToBuffer", 0x96), ("ToInteger", 0x99)];
 
-/// pre-serialised child: the parent's serialiser can only call to_aml_bytes on it
-pub struct Raw(pub Vec<u8>);
+/// one call a serialiser made on its sink
+#[derive(Clone, Debug, PartialEq)]
+pub enum Call {
+    B(u8),
+    W(u16),
+    D(u32),
+    Q(u64),
+    V(Vec<u8>),
+}
+/// a sink that records the calls made on it (all five methods, so that wide writes stay wide)
+#[derive(Default)]
+pub struct Recorder(pub Vec<Call>);
+impl AmlSink for Recorder {
+    fn byte(&mut self, b: u8) {
+        self.0.push(Call::B(b));
+    }
+    fn word(&mut self, w: u16) {
+        self.0.push(Call::W(w));
+    }
+    fn dword(&mut self, d: u32) {
+        self.0.push(Call::D(d));
+    }
+    fn qword(&mut self, q: u64) {
+        self.0.push(Call::Q(q));
+    }
+    fn vec(&mut self, v: &[u8]) {
+        self.0.push(Call::V(v.to_vec()));
+    }
+}
+/// stand-in for a child object: the parent's serialiser can only call to_aml_bytes on it, and it then makes on the
+/// parent's sink exactly the calls the real child made when it was serialised (a child that writes a 64-bit constant
+/// with one qword() call does so here too, so a parent that measures or forwards its children call by call sees the
+/// real thing)
+pub struct Raw(pub Vec<Call>);
+impl Raw {
+    pub fn bytes(b: Vec<u8>) -> Raw {
+        Raw(vec![Call::V(b)])
+    }
+}
 impl Aml for Raw {
     fn to_aml_bytes(&self, sink: &mut dyn AmlSink) {
-        sink.vec(&self.0);
+        for c in &self.0 {
+            match c {
+                Call::B(b) => sink.byte(*b),
+                Call::W(w) => sink.word(*w),
+                Call::D(d) => sink.dword(*d),
+                Call::Q(q) => sink.qword(*q),
+                Call::V(v) => sink.vec(v),
+            }
+        }
     }
+}
+/// the stand-in for term `t`: its real object serialised once into a recorder
+pub fn raw_of(t: &T) -> Raw {
+    Raw(real_with(t, &mut |a| {
+        let mut r = Recorder::default();
+        a.to_aml_bytes(&mut r);
+        r.0
+    }))
 }
 
 fn ser(a: &dyn Aml) -> Vec<u8> {
@@ -95,7 +148,7 @@ fn ser(a: &dyn Aml) -> Vec<u8> {
     v
 }
 fn raws(ts: &[T]) -> Vec<Raw> {
-    ts.iter().map(|t| Raw(real(t))).collect()
+    ts.iter().map(raw_of).collect()
 }
 fn refs(rs: &[Raw]) -> Vec<&dyn Aml> {
     rs.iter().map(|r| r as &dyn Aml).collect()
@@ -137,7 +190,7 @@ pub fn real_with<R>(t: &T, kk: &mut dyn FnMut(&dyn Aml) -> R) -> R {
         }
         T::Path(p) => kk(&Path::new(p)),
         T::FieldName(s) => kk(&Name::new_field_name(s)),
-        T::Name(p, inner) => kk(&Name::new(Path::new(p), &Raw(real(inner)))),
+        T::Name(p, inner) => kk(&Name::new(Path::new(p), &raw_of(inner))),
         T::Package(cs) => {
             let r = raws(cs);
             kk(&Package::new(refs(&r)))
@@ -151,13 +204,13 @@ pub fn real_with<R>(t: &T, kk: &mut dyn FnMut(&dyn Aml) -> R) -> R {
             }
             kk(&b)
         }
-        T::VarPackage(c) => kk(&VarPackageTerm::new(&Raw(real(c)))),
+        T::VarPackage(c) => kk(&VarPackageTerm::new(&raw_of(c))),
         T::Eisa(s) => kk(&EISAName::new(s)),
         T::Uuid(s) => kk(&Uuid::new(s)),
-        T::BufferTerm(c) => kk(&BufferTerm::new(&Raw(real(c)))),
+        T::BufferTerm(c) => kk(&BufferTerm::new(&raw_of(c))),
         T::BufferData(d) => kk(&BufferData::new(d.clone())),
         T::ResTemplate(rs) => {
-            let r: Vec<Raw> = rs.iter().map(|x| Raw(x.real())).collect();
+            let r: Vec<Raw> = rs.iter().map(|x| Raw::bytes(x.real())).collect();
             kk(&ResourceTemplate::new(refs(&r)))
         }
         T::Device(p, cs) => {
@@ -173,7 +226,7 @@ pub fn real_with<R>(t: &T, kk: &mut dyn FnMut(&dyn Aml) -> R) -> R {
             for c in cs {
                 body.extend(real(c));
             }
-            kk(&Raw(Scope::raw(Path::new(p), body)))
+            kk(&Raw::bytes(Scope::raw(Path::new(p), body)))
         }
         T::Method(p, args, serialized, cs) => {
             let r = raws(cs);
@@ -191,10 +244,10 @@ pub fn real_with<R>(t: &T, kk: &mut dyn FnMut(&dyn Aml) -> R) -> R {
                 .collect();
             kk(&Field::new(Path::new(p), access(*a), lock, upd, entries))
         }
-        T::OpRegion(p, sp, o, l) => kk(&OpRegion::new(Path::new(p), space(*sp), &Raw(real(o)), &Raw(real(l)))),
+        T::OpRegion(p, sp, o, l) => kk(&OpRegion::new(Path::new(p), space(*sp), &raw_of(o), &raw_of(l))),
         T::If(p, cs) => {
             let r = raws(cs);
-            kk(&If::new(&Raw(real(p)), refs(&r)))
+            kk(&If::new(&raw_of(p), refs(&r)))
         }
         T::Else(cs) => {
             let r = raws(cs);
@@ -202,10 +255,10 @@ pub fn real_with<R>(t: &T, kk: &mut dyn FnMut(&dyn Aml) -> R) -> R {
         }
         T::While(p, cs) => {
             let r = raws(cs);
-            kk(&While::new(&Raw(real(p)), refs(&r)))
+            kk(&While::new(&raw_of(p), refs(&r)))
         }
         T::Cmp(k, l, r) => {
-            let (l, r) = (Raw(real(l)), Raw(real(r)));
+            let (l, r) = (raw_of(l), raw_of(r));
             match k {
                 0 => kk(&Equal::new(&l, &r)),
                 1 => kk(&LessThan::new(&l, &r)),
@@ -217,13 +270,13 @@ pub fn real_with<R>(t: &T, kk: &mut dyn FnMut(&dyn Aml) -> R) -> R {
         }
         T::Arg(i) => kk(&Arg(*i)),
         T::Local(i) => kk(&Local(*i)),
-        T::Store(n, v) => kk(&Store::new(&Raw(real(n)), &Raw(real(v)))),
+        T::Store(n, v) => kk(&Store::new(&raw_of(n), &raw_of(v))),
         T::Mutex(p, l) => kk(&Mutex::new(Path::new(p), *l)),
         T::Acquire(p, t) => kk(&Acquire::new(Path::new(p), *t)),
         T::Release(p) => kk(&Release::new(Path::new(p))),
-        T::Notify(o, v) => kk(&Notify::new(&Raw(real(o)), &Raw(real(v)))),
+        T::Notify(o, v) => kk(&Notify::new(&raw_of(o), &raw_of(v))),
         T::Unary(k, a) => {
-            let a = Raw(real(a));
+            let a = raw_of(a);
             match k {
                 0 => kk(&ObjectType::new(&a)),
                 1 => kk(&SizeOf::new(&a)),
@@ -232,7 +285,7 @@ pub fn real_with<R>(t: &T, kk: &mut dyn FnMut(&dyn Aml) -> R) -> R {
             }
         }
         T::Binary(k, t, a, b) => {
-            let (t, a, b) = (Raw(real(t)), Raw(real(a)), Raw(real(b)));
+            let (t, a, b) = (raw_of(t), raw_of(a), raw_of(b));
             match k {
                 0 => kk(&Add::new(&t, &a, &b)),
                 1 => kk(&Concat::new(&t, &a, &b)),
@@ -254,15 +307,15 @@ pub fn real_with<R>(t: &T, kk: &mut dyn FnMut(&dyn Aml) -> R) -> R {
             }
         }
         T::Convert(k, t, a) => {
-            let (t, a) = (Raw(real(t)), Raw(real(a)));
+            let (t, a) = (raw_of(t), raw_of(a));
             if *k == 0 {
                 kk(&ToBuffer::new(&t, &a))
             } else {
                 kk(&ToInteger::new(&t, &a))
             }
         }
-        T::CreateField(n, s, bi, bn) => kk(&CreateField::new(&Raw(real(n)), &Raw(real(s)), &Raw(real(bi)), &Raw(real(bn)))),
-        T::Mid(s, i, l, r) => kk(&Mid::new(&Raw(real(s)), &Raw(real(i)), &Raw(real(l)), &Raw(real(r)))),
+        T::CreateField(n, s, bi, bn) => kk(&CreateField::new(&raw_of(n), &raw_of(s), &raw_of(bi), &raw_of(bn))),
+        T::Mid(s, i, l, r) => kk(&Mid::new(&raw_of(s), &raw_of(i), &raw_of(l), &raw_of(r))),
         T::MethodCall(p, args) => {
             let r = raws(args);
             kk(&MethodCall::new(Path::new(p), refs(&r)))
